@@ -162,6 +162,7 @@ func checkC10(w *World, r *Report) {
 	checkNestedConstructsRestoreState(w, r)
 	checkParsedNodesNotFiltered(w, r)
 	checkPrintWritesWholeValue(w, r)
+	checkParseReturnsRoot(w, r)
 	checkResolvesThroughLoad(w, r, "R10.5", []string{"ExtendsNode"}, "a parent remembered from an earlier render is used although the parent name is an expression (or the engine would reload it): the child is laid out in the wrong parent")
 
 	// ---- R10.2
@@ -1337,4 +1338,85 @@ func readsSameElement(v, elem ssa.Value) bool {
 		return false
 	}
 	return walk(v, 0)
+}
+
+// checkParseReturnsRoot — R10.14: a parsed template is a RootNode.  Every return of Parser.Parse
+// that can carry a nil error returns a *RootNode built here (NewRootNode / GetRootNode / a
+// literal).  The inheritance code recognises a template's top level by that type — the extends
+// tag is looked for among a RootNode's children, the blocks a parent contributes to parent() are
+// collected from a RootNode — so a template handed out as its only child node takes no part in
+// block substitution.
+func checkParseReturnsRoot(w *World, r *Report) {
+	parse := w.ssaFunc(w.method("Parser", "Parse"))
+	rootT := w.named("RootNode")
+	n := 0
+	ei := errResultIndex(parse.Signature)
+	instrsOf(parse, func(in ssa.Instruction) {
+		ret, ok := in.(*ssa.Return)
+		if !ok {
+			return
+		}
+		res := retResults(ret)
+		if ei < 0 || ei >= len(res) || len(res) < 1 {
+			return
+		}
+		if errorSurelyNonNil(res[ei], ret.Block()) {
+			return
+		}
+		n++
+		bad := ""
+		seen := map[ssa.Value]bool{}
+		var walk func(v ssa.Value, d int)
+		walk = func(v ssa.Value, d int) {
+			v = unspill(v)
+			if v == nil || seen[v] || d > 8 || bad != "" {
+				return
+			}
+			seen[v] = true
+			switch x := v.(type) {
+			case *ssa.Phi:
+				for _, e := range x.Edges {
+					walk(e, d+1)
+				}
+				return
+			case *ssa.MakeInterface:
+				if types.Identical(deref(x.X.Type()), rootT) {
+					return
+				}
+				bad = "a " + x.X.Type().String()
+				return
+			case *ssa.ChangeInterface:
+				walk(x.X, d+1)
+				return
+			case *ssa.Call:
+				if g := x.Call.StaticCallee(); g != nil && isTwigFn(g) && g.Signature.Results().Len() >= 1 {
+					if types.Identical(deref(g.Signature.Results().At(0).Type()), rootT) {
+						return
+					}
+					// a constructor declared to return Node: what it returns
+					if len(g.Blocks) > 0 && g != parse {
+						instrsOf(g, func(gi ssa.Instruction) {
+							if gr, ok := gi.(*ssa.Return); ok {
+								walk(retResults(gr)[0], d+1)
+							}
+						})
+						return
+					}
+				}
+			case *ssa.Const:
+				if x.IsNil() {
+					return
+				}
+			}
+			bad = describe(v) + " (" + v.String() + ")"
+		}
+		walk(res[0], 0)
+		construct := "Parse returns a RootNode"
+		if bad == "" {
+			r.ok("R10.14", ssaName(parse), construct, w.posOf(ret.Pos()), "a *RootNode on every edge", true)
+		} else {
+			r.bad("R10.14", ssaName(parse), construct, w.posOf(ret.Pos()), "Parse can hand out "+bad+" as the whole template: the code that walks the extends chain looks for the extends tag and for the blocks of a parent among the children of a *RootNode, so such a template contributes no blocks and parent() finds nothing")
+		}
+	})
+	r.floor("successful returns of Parser.Parse", n, 1)
 }
